@@ -197,3 +197,24 @@ Theorem C20_parse_one_framing : forall decompress rec b1 b2 h1 h2 r,
   parse_one decompress rec b1 = parse_one decompress rec b2.
 Proof. exact parse_one_framing. Qed.
 Print Assumptions C20_parse_one_framing.
+
+(* a well-formed packet framed with partial body lengths / an old-format header is parsed to the SAME packet
+   (premises as for C20_parse_emit; `rec` is the parser used for decompressed data) *)
+Theorem C20_partial_framing_same_packet : forall (compress : Z -> bytes -> bytes) (decompress : Z -> bytes -> option bytes),
+  (forall a x, valid_calg a = true -> decompress a (compress a x) = Some x) ->
+  forall rec p t b ks y, wf_pkt compress p -> tag_body compress p = Some (t, b) ->
+  (forall a inner pb, p = PComp a inner -> emit_pkts compress inner = Some pb -> rec pb = Ok inner) ->
+  Forall (fun k => 0 <= k < 31) ks ->
+  parse_one decompress rec (frame_partial t ks b ++ y) = Ok (p, y).
+Proof. exact partial_framing_same_packet. Qed.
+Print Assumptions C20_partial_framing_same_packet.
+Theorem C20_old_framing_same_packet : forall (compress : Z -> bytes -> bytes) (decompress : Z -> bytes -> option bytes),
+  (forall a x, valid_calg a = true -> decompress a (compress a x) = Some x) ->
+  forall rec p t b w x y, wf_pkt compress p -> tag_body compress p = Some (t, b) ->
+  (forall a inner pb, p = PComp a inner -> emit_pkts compress inner = Some pb -> rec pb = Ok inner) ->
+  0 <= t < 16 -> (w = 1 \/ w = 2 \/ w = 4) -> frame_old t w b = Some x ->
+  parse_one decompress rec (x ++ y) = Ok (p, y).
+Proof. exact old_framing_same_packet. Qed.
+Print Assumptions C20_old_framing_same_packet.
+Example C20_framing_premises : wf_pkt id_compress (PLit lit_example) /\ tag_body id_compress (PLit lit_example) = Some (11, [98; 0; 0; 0; 0; 0; 104; 105]).
+Proof. exact example_framing_premises. Qed.
